@@ -21,6 +21,7 @@ def run(rep, tier):
     ]
     tabs = sc.tables(rep, tier, "c03", "ac")
     sc.conformance(rep, tier, tabs, "residual", 160, "residual", threads=(1, 3) if tier == "thorough" else (1,), scales=(1.0, 1e-9, 1e7))
+    cache_derivation(rep, tier)
     try:
         import realgeom
         realgeom.run(rep, tier, "residual")
@@ -29,6 +30,37 @@ def run(rep, tier):
     rep.cov["exhaustive"] = False
     rep.cov["rule"] = ("TLC enumerates every instance of the families (grid size, spacings, split, boundary mode, R0, coefficient pattern); a seeded "
                        "sample is probed on the real operators; non-trivial = non-zero mixed coefficient art")
+
+
+def cache_derivation(rep, tier):
+    """the caches of a coarse level are derived from the finer level by index arithmetic (LevelCache(previous_level, grid)):
+    spec/PolarGridSpec.tla CacheDerivation for every grid of the coarsening chains incl. every explicit split; the real derived
+    cache is compared bit for bit with a cache evaluated on the coarse grid itself, for every (fine split, coarse split) pair"""
+    import json
+    import c17
+    thorough = tier == "thorough"
+    exe = os.path.join(vlib.build(["drv_grid"], "gcc"), "drv_grid")
+    nrs, nts = ("{3,5,7,9,11,13,17}", "{4,8,12,16,24,32}") if thorough else ("{3,5,7,9,13}", "{4,8,12,16}")
+    r = vlib.tlc("PolarGridSpec", c17.cfg("grid_c03_%s" % tier, nrs, nts, True, True, "{1,3}"), heap="12g", tag="c03grid", timeout=3000, workers=8)
+    rep.add_tlc(r, "PolarGridSpec.tla (CacheDerivation and the grid invariants) nr in %s nt in %s, every split" % (nrs, nts))
+    if not vlib.tlc_must_hold(r, "PolarGridSpec"):
+        rep.violation("model:" + r.violation, "PolarGridSpec.tla: %s violated\n%s" % (r.violation, vlib.counterexample(r)[:2000]), replay={"tlc": vlib.counterexample(r)[:6000]})
+        return
+    path = os.path.join(vlib.BUILD, "cases", "c03_grids_%s.ndjson" % tier)
+    os.makedirs(os.path.dirname(path), exist_ok=True)
+    with open(path, "w") as f:
+        for c in r.cases:
+            f.write(json.dumps(c, separators=(",", ":")) + "\n")
+    rc, recs, out = vlib.run_driver(exe, [path, "cache"], timeout=2400)
+    summ = [x for x in recs if x.get("summary")]
+    if rc != 0 or not summ:
+        rep.violation("cache:crash", "grid/cache driver crashed (rc=%s): %s" % (rc, out[-600:]), replay={"tables": path})
+        return
+    rep.cov["derived_caches_compared"] = summ[0].get("caches", 0)
+    for x in recs:
+        if x.get("fail") and x["what"].startswith("cache:"):
+            name = x["what"].split("coarse cache ")[1].split(" ")[0] if "coarse cache " in x["what"] else "?"
+            rep.violation("cache:derived:%s" % name, "%s on fine grid nr=%d nt=%d nc=%d auto=%s" % (x["what"], x["nr"], x["nt"], x["nc"], x["auto"]), replay=x)
 
 
 def replay(path):
